@@ -24,13 +24,13 @@ func main() {
 	tier := fs.String("tier", envOr("VERIF_TIER", "quick"), "quick|thorough")
 	timeout := fs.Int("timeout", 0, "per-obligation solver timeout in seconds (default by tier)")
 	dump := fs.Bool("dump", false, "print generated obligations")
-	par := fs.Int("par", runtime.NumCPU()/2, "parallel obligations")
+	par := fs.Int("par", (runtime.NumCPU()*3)/8, "parallel obligations")
 	only := fs.String("only", "", "only obligations whose name contains this")
 	fs.Parse(os.Args[2:])
 	if *timeout == 0 {
-		*timeout = 60
+		*timeout = 180
 		if *tier == "thorough" {
-			*timeout = 600
+			*timeout = 900
 		}
 	}
 	currentTier = *tier
